@@ -554,8 +554,19 @@ def pred_names(prog: Program) -> RuleResult:
     return r
 
 
+def _hv_truth(prog):
+    # a solution / binding / argument whose value is falsy is a value like any other: bound values are asked for presence, not for truth
+    from .hvtruth import hv_truth
+
+    return hv_truth(prog)
+
+
 def run(prog: Program, tier: str) -> List[RuleResult]:
     from .c01 import ep_operand
+    from .c02 import ep_bound
 
     # the truth a symbolic call contributes: flagged from its result only in condition position (shared with C01)
-    return [pred_align(prog), pred_dispatch(prog), pred_once(prog), pred_names(prog), pred_fresh(prog), lit_one(prog), arg_symbolic(prog), ep_operand(prog)]
+    return [pred_align(prog), pred_dispatch(prog), pred_once(prog), pred_names(prog), pred_fresh(prog), lit_one(prog), arg_symbolic(prog), ep_operand(prog),
+            # a variable written in two positions of a call, or bound by an earlier conjunct, reaches the callable with its bound value -
+            # whatever that value is: a falsy one taken for "not bound" is enumerated again and the callable runs with arguments that were never written together
+            ep_bound(prog), _hv_truth(prog)]
